@@ -352,6 +352,9 @@ pub fn ifdata_cases(g: &Grammar, out: &mut Vec<Case>) {
         ("unknown-simple", "ZZZ 1 2.5 \"s\" ident"),
         ("unknown-nested", "ZZZ /begin Q 1 /begin R \"x\" /end R 2 /end Q"),
         ("unknown-hex", "ZZZ 0xFF 0x10 -5"),
+        ("unknown-floats", "ZZZ 1e3 2.0 -0.0 1e-300 0.1 1e300 4294967296.0"),
+        ("unknown-wide-ints", "ZZZ 4294967295 4294967297 -2147483649 18446744073709551615 0x1FFFFFFFF"),
+        ("unknown-bare-values", "1 2.5 \"s\" 7.0"),
     ];
     for with_a2ml in [false, true] {
         for builtin in [false, true] {
